@@ -22,10 +22,12 @@ type sigFmt struct {
 	strict func(h []byte) bool // documented standard signature: "must be identified as F"
 }
 
-func at(h []byte, off int, s string) bool { return len(h) >= off+len(s) && string(h[off:off+len(s)]) == s }
+func at(h []byte, off int, s string) bool {
+	return len(h) >= off+len(s) && string(h[off:off+len(s)]) == s
+}
 
-func isFtyp(h []byte) bool     { return at(h, 4, "ftyp") }
-func isFtypStd(h []byte) bool  { return isFtyp(h) && h[0] == 0 && h[1] == 0 }
+func isFtyp(h []byte) bool    { return at(h, 4, "ftyp") }
+func isFtypStd(h []byte) bool { return isFtyp(h) && h[0] == 0 && h[1] == 0 }
 func brandIn(h []byte, off int, set ...string) bool {
 	for _, s := range set {
 		if at(h, off, s) {
@@ -53,7 +55,9 @@ var sigTable = []sigFmt{
 	{"cr3", imagetype.ImageCR3, func(h []byte) bool { return isFtyp(h) && at(h, 8, "crx ") }, func(h []byte) bool { return isFtypStd(h) && at(h, 8, "crx ") }},
 	{"avif", imagetype.ImageAVIF, func(h []byte) bool {
 		return isFtyp(h) && (brandIn(h, 8, "avif", "avis") || brandIn(h, 16, "avif", "avis") || brandIn(h, 20, "avif", "avis"))
-	}, func(h []byte) bool { return isFtypStd(h) && (at(h, 8, "avif") || (at(h, 8, "mif1") && at(h, 20, "avif"))) }},
+	}, func(h []byte) bool {
+		return isFtypStd(h) && (at(h, 8, "avif") || (at(h, 8, "mif1") && at(h, 20, "avif")))
+	}},
 	{"heif", imagetype.ImageHEIF, func(h []byte) bool {
 		return isFtyp(h) && (brandIn(h, 8, heifBrands...) || brandIn(h, 16, heifBrands...) || brandIn(h, 20, heifBrands...))
 	}, func(h []byte) bool {
